@@ -511,6 +511,7 @@ pub fn build(op: &Op, hs: &mut Handles) -> Ent {
             for (nm, v) in &op.o {
                 assert!(nm == "map");
                 x.add_xormap(v[0]);
+                if peeking { peek(&x); }
             }
             Ent::Cxims(x)
         }
@@ -605,6 +606,7 @@ pub fn build(op: &Op, hs: &mut Handles) -> Ent {
             g.timestamp = arr::<8>(blob(2));
             for extra in op.b.iter().skip(3) {
                 g.add_data(Box::new(RawAml(extra.clone())));
+                if op.b.len() % 3 == 2 { peek(&g); }
             }
             Ent::Ged(g)
         }
